@@ -621,10 +621,28 @@ fn rec_bodies(holes: &[E]) -> Vec<E> {
             out.push(obj(vec![prop("p", h1.clone()), prop("q", arr(h2.clone()))]));
         }
     }
+    // a nested rec before / after the mention that may close a cycle
+    for h in holes {
+        let r = E::Rec("y".into(), Box::new(arr(var("y"))));
+        out.push(obj(vec![prop("x", r.clone()), prop("p", h.clone())]));
+        out.push(obj(vec![prop("p", h.clone()), prop("x", r)]));
+    }
     out
 }
 
 pub fn f6(n: usize, full: bool) -> Fragment {
+    let mut programs = f6_graphs(n);
+    programs.extend(f6_rec_programs());
+    let _ = full;
+    Fragment {
+        name: "F6 recursion",
+        well_kinded: false,
+        programs,
+    }
+}
+
+/// Every assignment of a body form to each of the n declarations.
+fn f6_graphs(n: usize) -> Vec<Program> {
     let mut programs = Vec::new();
     let names = ["a", "b", "c"];
     let mut holes: Vec<E> = names[..n].iter().map(|x| var(x)).collect();
@@ -643,7 +661,13 @@ pub fn f6(n: usize, full: bool) -> Fragment {
         st.push(get(content(var("a"))));
         programs.push(single(st));
     }
-    let _ = full;
+    programs
+}
+
+/// rec expressions: nested, shadowing, in functions applied at several scope depths, closed
+/// rec used from different scopes, recursion in imported modules.
+pub fn f6_rec_programs() -> Vec<Program> {
+    let mut programs = Vec::new();
     // rec expressions
     let recs = vec![
         E::Rec("x".into(), Box::new(obj(vec![prop("n", arr(var("x")))]))),
@@ -766,11 +790,7 @@ pub fn f6(n: usize, full: bool) -> Fragment {
             ],
         });
     }
-    Fragment {
-        name: "F6 recursion",
-        well_kinded: false,
-        programs,
-    }
+    programs
 }
 
 // --- F7: @references ---------------------------------------------------------------------------
@@ -816,6 +836,29 @@ pub fn f7() -> Fragment {
         vec![let_("@a", o.clone()), let_("@unused", obj(vec![prop("z", str_())])), get(content(var("@a")))],
         // ref with its own description
         vec![let_ann("@a", "description: an a, title: A", o.clone()), get(content(arr(var("@a"))))],
+        // per-use `required` / `examples` on a reference used several times
+        vec![
+            let_("@a", o.clone()),
+            get(content(obj(vec![
+                prop("first", ann(var("@a"), "required: true")),
+                prop("second", var("@a")),
+                prop("third", ann(var("@a"), "required: false")),
+            ]))),
+        ],
+        vec![
+            let_("@a", o.clone()),
+            get(content(obj(vec![prop("plain", var("@a")), prop("marked", ann(var("@a"), "required: true"))]))),
+            get_at("b", content(ann(var("@a"), "examples: {e1: u1}"))),
+            get_at("c", content(var("@a"))),
+        ],
+        // two references first registered while evaluating the arguments of one application
+        vec![
+            let_("@a", o.clone()),
+            let_("@b", obj(vec![prop("q", str_())])),
+            let_("@c", arr(num())),
+            fun("f", &["x", "y", "z"], obj(vec![prop("x", var("x")), prop("y", var("y")), prop("z", var("z"))])),
+            get(content(app("f", vec![var("@c"), var("@a"), var("@b")]))),
+        ],
         // ref inside rec, rec inside ref
         vec![
             let_("@a", E::Rec("x".into(), Box::new(obj(vec![prop("n", arr(var("x")))])))),
@@ -947,6 +990,29 @@ pub fn f8() -> Fragment {
                 name: "m.oal".into(),
                 stmts: vec![let_("a", str_()), get_at("ignored", content(num()))],
             },
+        ],
+    });
+    // modules in a sub-directory: imports are relative to the importing module
+    programs.push(Program {
+        modules: vec![
+            Module {
+                name: "main.oal".into(),
+                stmts: vec![
+                    Stmt::Use("lib/api.oal".into(), Some("api".into())),
+                    Stmt::Use("types.oal".into(), Some("t".into())),
+                    get(content(obj(vec![prop("mine", qvar("t", "item")), prop("theirs", qvar("api", "page"))]))),
+                ],
+            },
+            Module { name: "types.oal".into(), stmts: vec![let_("item", num())] },
+            Module {
+                name: "lib/api.oal".into(),
+                stmts: vec![
+                    Stmt::Use("types.oal".into(), Some("t".into())),
+                    Stmt::Use("../types.oal".into(), Some("up".into())),
+                    let_("page", obj(vec![prop("items", arr(qvar("t", "item"))), prop("count", qvar("up", "item"))])),
+                ],
+            },
+            Module { name: "lib/types.oal".into(), stmts: vec![let_("item", str_())] },
         ],
     });
     // relative spellings of the same module
@@ -1186,6 +1252,16 @@ pub fn f10() -> Fragment {
     programs.push(single(vec![
         Stmt::Res(rel(uri_lit(&["root"]), vec![ok.clone()])),
         Stmt::Res(rel(uri_lit(&[""]), vec![ok.clone()])),
+    ]));
+    // paths that differ only by a trailing slash are different resources with different ids
+    programs.push(single(vec![
+        Stmt::Res(rel(uri_lit(&["a"]), vec![ok.clone()])),
+        Stmt::Res(rel(uri_lit(&["a", ""]), vec![ok.clone()])),
+    ]));
+    programs.push(single(vec![
+        Stmt::Res(rel(E::Uri(vec![Seg::Lit("a".into()), Seg::Var(Box::new(prop("id", num())))], None), vec![ok.clone()])),
+        Stmt::Res(rel(E::Uri(vec![Seg::Lit("a".into()), Seg::Var(Box::new(prop("id", num()))), Seg::Root], None), vec![ok.clone()])),
+        Stmt::Res(rel(uri_lit(&["a", "", "b"]), vec![ok.clone()])),
     ]));
     // several resources keep their order
     for p in permutations(&[get_at("b", content(num())), get_at("a", content(str_())), get_at("c", E::Content(vec![], None))]) {
